@@ -6,9 +6,11 @@ spec/MC_ReadPath.tla (one TLC behaviour per case; invariants; POSTCONDITION Expo
 
 1. TLC checks the transcription against the reference rule on every case
    (file x damage class x API x verify option x filter x fresh/open handle, + double damage):
-   - as-is flags, invariant VerdictKF (open findings carved out by name), Sane, NoNeedlessRaise;
-   - anti-vacuity companion: as-is flags, invariant Verdict WITHOUT carve-outs must FAIL;
-   - repairs modelled (RecoverOnMissingTarget=FALSE, JsonObjectIsEmpty=FALSE): VerdictRepaired holds;
+   - flags of the code as it is (RecoverOnMissingTarget=TRUE: open finding S12; JsonObjectIsEmpty=FALSE:
+     fixed by /repo 122cfe9), invariant VerdictKF (the open finding carved out by name), Sane, NoNeedlessRaise;
+   - anti-vacuity companions that must FAIL: Verdict WITHOUT the carve-out; VerdictKF with the pre-fix JSON
+     fallback (JsonObjectIsEmpty=TRUE);
+   - the S12 repair modelled as well (RecoverOnMissingTarget=FALSE): VerdictRepaired holds;
    - thorough: "checksum mismatch only logged" and "verify defaults to off" must FAIL.
    Every exported case that breaks the reference rule must lie inside a named carve-out and every
    carve-out must be reachable (so a silently fixed/changed behaviour is noticed).
@@ -68,7 +70,8 @@ ROW_APIS = {"scan", "scan_par", "batches_1", "batches_big", "iter"}
 def _consts(**kw: Any) -> Dict[str, Any]:
     R = tlc.Raw
     d: Dict[str, Any] = {
-        "RecoverOnMissingTarget": True, "JsonObjectIsEmpty": True, "ChecksumEnforced": True, "VerifyDefault": True,
+        # the code as it is: S12 recovery still there (open finding), JSON-object fallback fixed by /repo 122cfe9
+        "RecoverOnMissingTarget": True, "JsonObjectIsEmpty": False, "ChecksumEnforced": True, "VerifyDefault": True,
         "Metas": R("<- MC_Metas"), "ListOf": R("<- MC_ListOf"), "MansOf": R("<- MC_MansOf"), "DataOf": R("<- MC_DataOf"),
         "RowsOf": R("<- MC_RowsOf"), "AltRowsOf": R("<- MC_AltRowsOf"), "Sibling": R("<- MC_Sibling"),
         "Filters": R("<- MC_Filters"), "Sel": R("<- MC_Sel"), "Pruned": R("<- MC_Pruned"),
@@ -108,19 +111,28 @@ def _run_models(ctx: Ctx, quick: bool, companions: bool = True) -> Tuple[Dict[st
 
 
 def _companions(ctx: Ctx, quick: bool, base: Dict[str, Any], workers: int) -> None:
-    # anti-vacuity: without the carve-outs the as-is model must break the rule (the two open findings)
+    # anti-vacuity 1: without the carve-out the as-is model must break the rule (the open S12 finding)
     cfg0 = tlc.make_cfg(spec="Spec", constants=_consts(Doubles="none", Reduced=True, KSet={1}), invariants=["Verdict"], check_deadlock=False)
     res0 = tlc.run_tlc("MC_ReadPath", cfg0, timeout_s=600, workers=workers, jvm_props=_jvm_tmp(), label="MC_ReadPath as-is, Verdict without carve-outs (must fail)")
     if "Verdict" not in res0.violated:
-        raise MachineryError("anti-vacuity: the as-is model no longer violates Verdict (findings fixed or model changed?)")
-    # repairs modelled: the rule holds (up to the inherent pointer-and-target-lost case)
-    cfg1 = tlc.make_cfg(spec="Spec", constants=_consts(RecoverOnMissingTarget=False, JsonObjectIsEmpty=False, **base),
+        raise MachineryError("anti-vacuity: the as-is model no longer violates Verdict (finding fixed or model changed?)")
+    # anti-vacuity 2: the pre-122cfe9 JSON fallback (any JSON object = empty manifest/list) must be caught by the model
+    cfgj = tlc.make_cfg(spec="Spec", constants=_consts(Doubles="none", Reduced=True, KSet={1}, JsonObjectIsEmpty=True),
+                        invariants=["VerdictKF"], check_deadlock=False)
+    resj = tlc.run_tlc("MC_ReadPath", cfgj, timeout_s=600, workers=workers, jvm_props=_jvm_tmp(),
+                       label="MC_ReadPath JsonObjectIsEmpty=TRUE (pre-fix JSON fallback; must fail)")
+    if "VerdictKF" not in resj.violated:
+        raise MachineryError("anti-vacuity: the model with the pre-fix JSON fallback (JsonObjectIsEmpty=TRUE) does not violate VerdictKF")
+    # the S12 repair modelled as well: the rule holds (up to the inherent pointer-and-target-lost case)
+    cfg1 = tlc.make_cfg(spec="Spec", constants=_consts(RecoverOnMissingTarget=False, **base),
                         invariants=["VerdictRepaired", "Sane"], check_deadlock=False)
-    res1 = tlc.run_tlc("MC_ReadPath", cfg1, timeout_s=900, workers=workers, jvm_props=_jvm_tmp(), label="MC_ReadPath repairs modelled (VerdictRepaired)")
+    res1 = tlc.run_tlc("MC_ReadPath", cfg1, timeout_s=900, workers=workers, jvm_props=_jvm_tmp(), label="MC_ReadPath S12 repair modelled (VerdictRepaired)")
     ctx.add_tlc(res1)
     if not res1.ok:
         raise MachineryError(f"the repaired model violates {res1.violated}:\n{res1.error_trace[:3000]}")
-    av = ["as-is model violates Verdict without carve-outs", "repaired model satisfies VerdictRepaired"]
+    av = ["as-is model violates Verdict without carve-outs (open S12 finding)",
+          "model with the pre-122cfe9 JSON fallback (JsonObjectIsEmpty=TRUE) violates VerdictKF",
+          "model with the S12 repair satisfies VerdictRepaired"]
     if not quick:
         for flag in ("ChecksumEnforced", "VerifyDefault"):
             cfgm = tlc.make_cfg(spec="Spec", constants=_consts(Doubles="none", Reduced=True, KSet={1}, **{flag: False}),
@@ -151,7 +163,7 @@ def _load_export(ctx: Ctx, out: str, res: Any) -> Tuple[Dict[str, Any], Dict[Any
             kf_seen[c["kf"]] += 1
     if len(index) != len(cases):
         raise MachineryError("export: duplicate case keys")
-    for kf in ("meta_absent", "json_object"):
+    for kf in ("meta_absent",):
         if not kf_seen.get(kf):
             raise MachineryError(f"carve-out {kf} is no longer reachable in the model (finding fixed or model changed)")
     ctx.cov["model_cases"] = len(cases)
@@ -1115,7 +1127,7 @@ def run(ctx: Ctx) -> None:
              "(damage, realisation, API variant, options)")
     ctx.sample({"model_case": cases[len(cases) // 3]})
     ctx.sample({"model_case": next(c for c in cases if c["kf"] == "meta_absent" and not c["refok"])})
-    ctx.sample({"model_case": next(c for c in cases if c["kf"] == "json_object" and not c["refok"])})
+    ctx.sample({"model_case": next(c for c in cases if any(d[2] == "json_object" and d[0] == "L3" for d in c["dmg"]) and c["api"] == "scan")})
     ctx.sample({"table_roles": tab.rel})
     ctx.assume("LocalStorageBackend only (S3 backend reads go through the same Table code; its retry wrapper is C20's subject)",
                "transient faults are injected by wrapping the storage backend instance's read_file/open_file/exists/open_seekable/get_size "
